@@ -558,6 +558,18 @@ func init() {
 		reg("("+T+tn+").String", func(ex *Exec, a []Val) Val { return StrV{Opaque: true, Tag: tn + "-string"} })
 	}
 
+	reg("(github.com/cosmos/cosmos-sdk/x/staking/types.CommissionRates).Validate", func(ex *Exec, a []Val) Val {
+		cr := a[0].(StructV) // Rate, MaxRate, MaxChangeRate
+		rate, maxRate, maxChange := ex.decArg(cr.F[0], "CommissionRates.Rate"), ex.decArg(cr.F[1], "CommissionRates.MaxRate"), ex.decArg(cr.F[2], "CommissionRates.MaxChangeRate")
+		tf := ex.tf
+		zero, oneD := tf.Inti(0), tf.IntConst(precision)
+		bad := tf.Or(tf.ILt(maxRate, zero), tf.IGt(maxRate, oneD), tf.ILt(rate, zero), tf.IGt(rate, maxRate), tf.ILt(maxChange, zero), tf.IGt(maxChange, maxRate))
+		if ex.Branch(bad) {
+			return ex.newErr("staking/commission", "invalid commission rates")
+		}
+		return IfaceV{}
+	})
+
 	// ---------- events (pure constructors) ----------
 	reg(T+"NewEvent", func(ex *Exec, a []Val) Val { return ex.zeroOfResult(T + "NewEvent") })
 	reg(T+"NewAttribute", func(ex *Exec, a []Val) Val { return ex.zeroOfResult(T + "NewAttribute") })
